@@ -225,7 +225,10 @@ Proof.
   assert (incl [s;t] (filter (fun s => has p s King c) all_sq)) as Hincl.
   { intros x [<-|[<-|[]]]; apply filter_In; split; try assumption;
       apply in_all_sq; eapply has_lt; eassumption. }
-  pose proof (NoDup_incl_length Hnd2 Hincl) as Hlen. cbn [length] in Hlen. lia.
+  pose proof (NoDup_incl_length Hnd2 Hincl) as Hlen.
+  change (length [s;t]) with 2%nat in Hlen.
+  remember (length (filter (fun s => has p s King c) all_sq)) as n eqn:En. clear En Hnd Hincl.
+  lia.
 Qed.
 
 Definition WFpos (p:pos) : Prop :=
